@@ -409,6 +409,14 @@ impl KeyValueStore {
     }
 
     pub fn write(&self, mut batch: WriteBatch) -> Result<(), SError> {
+        // Every entry of a batch gets the same sequence number, so a batch cannot name a key twice:
+        // the memtable holds one entry per (key, sequence number).
+        let mut keys: Vec<&[u8]> = batch.entries.iter().map(|e| e.key.as_slice()).collect();
+        keys.sort_unstable();
+        if keys.windows(2).any(|w| w[0] == w[1]) {
+            return Err(logic_error("write batch names one key more than once"));
+        }
+        drop(keys);
         #[cfg(rescrv_blue_verif)]
         let verif_seq_no: u64;
         let (mut wait_guard, memtable, log, seq_no) = {
